@@ -6,24 +6,24 @@
     compute the corresponding clause of [Sem.constraint_ok] / [Sem.crossing_ok]
     on the same row and the same windows, for rows, windows, k, level numbers
     and trial counts of any size; [C17_mismatch_iff_valid] assembles them for the
-    fragment [frag] of flat records (boolean predicate), and
+    fragment [nfrag] of flat records (boolean predicate), and
     [C17_mismatch_iff_valid_partial] for any design given the correspondence of each
     component.
 
     Full statement (not proved in general; kept for reference):
       forall fb s, accepted fb -> in_domain fb s ->
         (no_mismatch fb s = true <-> Sem.valid_b (code_sem fb) (tseq_of s) = true)
-    Missing outside [frag]: derived factors ([test_trial] against [Sem.accepts]:
-    needs the flat acceptance tables tied to the Sem tables), sustain > 1 (Nest;
-    [Sustain.potential_sample_conforms] against clause V4), LatinSquare, and
-    exclusions of crossed levels (where the crossing clause alone is refuted,
+    Missing outside [nfrag]: derived factors ([test_trial] against [Sem.accepts]:
+    needs the flat acceptance tables tied to the Sem tables), LatinSquare,
+    ExactlyKMultipleInARow (no documented meaning), and exclusions of crossed
+    levels (where the crossing clause alone is refuted,
     [C17_crossing_clause_refuted], and the equivalence holds only through the
     Exclude / derived-factor checks).  On the current /repo the full statement is
-    moreover false for designs with a weight-desugared hidden factor (KeyError),
-    a factor in two crossings under Sequential/LatinSquare (ValueError) - see the
-    search of harness/props/c17.py. *)
+    moreover false for designs with a weight-desugared hidden factor (KeyError:
+    the user-visible sample has no key for the hidden factor) - see the search of
+    harness/props/c17.py. *)
 From Coq Require Import ZArith List Bool Arith Lia.
-From SP Require Import Design.Flat Design.Layout Check.Mismatch Check.MismatchProofs Check.CrossingProofs Check.FragmentProofs.
+From SP Require Import Design.Flat Design.Layout Check.Mismatch Check.MismatchProofs Check.CrossingProofs Check.FragmentProofs Check.NestProofs.
 From SP Require Design.Sem.
 Import ListNotations.
 
@@ -132,17 +132,34 @@ Theorem C17_crossing_clause_refuted :
 Proof. exact crossing_clause_refuted. Qed.
 Print Assumptions C17_crossing_clause_refuted.
 
-(** The whole checker on the fragment [frag]: no hidden / derived factors, no
-    sustain, constraints among AtMost/AtLeast/ExactlyKInARow, ExactlyK, Pin,
-    Sequential, Exclude (on uncrossed factors), MinimumTrials, any number of
-    crossings with weights; candidates: one level per trial for every factor
-    ([wf_rowsb]); [code_sem fb] reads the flat record the way the checker
-    consumes it.  Unbounded numbers of factors, levels, trials, windows. *)
+(** The whole checker on the fragment [nfrag] (boolean predicate on the flat
+    record): no hidden / derived factors; any sustain counts dividing the trial
+    count (Nest), with the Sustain constraint present; constraints among
+    AtMost/AtLeast/ExactlyKInARow, ExactlyK, Pin, Sequential, Exclude (on
+    uncrossed factors), MinimumTrials; any number of weighted crossings whose
+    chunk geometry is consistent.  Candidates: one level per trial for every
+    factor ([wf_rowsb]).  [code_sem_n fb] reads the flat record the way the
+    checker consumes it.  Unbounded numbers of factors, levels, trials, windows. *)
 Theorem C17_mismatch_iff_valid : forall fb rows,
+  nfrag fb = true -> wf_rowsb fb rows = true ->
+  (no_mismatch fb (cand_of_rows rows) = true <-> Sem.valid_b (code_sem_n fb) rows = true).
+Proof. exact nfrag_mismatch_iff_valid_b. Qed.
+Print Assumptions C17_mismatch_iff_valid.
+
+(** The same for the sustain-free fragment [frag] against [code_sem] (componentwise:
+    each phase of the checker is one part of [valid_b]). *)
+Theorem C17_mismatch_iff_valid_plain : forall fb rows,
   frag fb = true -> wf_rowsb fb rows = true ->
   (no_mismatch fb (cand_of_rows rows) = true <-> Sem.valid_b (code_sem fb) rows = true).
 Proof. exact frag_mismatch_iff_valid_b. Qed.
-Print Assumptions C17_mismatch_iff_valid.
+Print Assumptions C17_mismatch_iff_valid_plain.
+
+(** [Sustain.potential_sample_conforms] is clause V4 (cells equal within a sustain
+    group) on well-formed rows. *)
+Theorem C17_sustain : forall fb rows, nfrag fb = true -> wf_rows fb rows ->
+  exists b, sustain_conforms fb (cand_of_rows rows) = Ok b /\ (b = true <-> V4 fb rows).
+Proof. exact sustain_conforms_V4. Qed.
+Print Assumptions C17_sustain.
 
 (** Any design and candidate: if each of the three phases of the model computes
     the corresponding part of [Sem.valid_b], so does the verdict. *)
@@ -164,11 +181,27 @@ Print Assumptions C17_mismatch_iff_valid_partial.
     crossing over 6 trials (multiplicities 2,1,2,1) with an uncrossed 3-level
     factor and AtMostKInARow over two 3-trial windows, ExactlyK, Pin(-1), Exclude,
     AtLeastKInARow, ExactlyKInARow and Sequential. *)
-Example C17_example_fragment : frag ex_fb = true.
-Proof. vm_compute. reflexivity. Qed.
+Example C17_example_fragment : frag ex_fb = true /\ nfrag ex_fb = true.
+Proof. vm_compute. auto. Qed.
 Example C17_example_valid :
   wf_rowsb ex_fb ex_rows_valid = true /\ mismatch ex_fb (cand_of_rows ex_rows_valid) = VLists [] [] [] /\ Sem.valid_b (code_sem ex_fb) ex_rows_valid = true.
 Proof. vm_compute. auto. Qed.
 Example C17_example_invalid :
   wf_rowsb ex_fb ex_rows_invalid = true /\ mismatch ex_fb (cand_of_rows ex_rows_invalid) = VLists [] [2] [] /\ Sem.valid_b (code_sem ex_fb) ex_rows_invalid = false.
 Proof. vm_compute. auto. Qed.
+
+(** The design of the known finding, Nest(CrossBlock([s],[s],[Sequential(s)]),
+    CrossBlock([A],[A],[])) as the constructors flatten it (|s| = 3 sustained over
+    2 trials, 6 trials), is in the fragment: its valid output s = 0 0 1 1 2 2 is
+    accepted (it was flagged before /repo 6ff33e3), the by-trial order 0 0 2 2 1 1
+    and an unsustained row are flagged. *)
+Example C17_example_nest :
+  nfrag nest_fb = true /\
+  wf_rowsb nest_fb nest_rows_valid = true /\
+  mismatch nest_fb (cand_of_rows nest_rows_valid) = VLists [] [] [] /\
+  Sem.valid_b (code_sem_n nest_fb) nest_rows_valid = true /\
+  mismatch nest_fb (cand_of_rows nest_rows_by_trial) = VLists [] [2] [] /\
+  Sem.valid_b (code_sem_n nest_fb) nest_rows_by_trial = false /\
+  mismatch nest_fb (cand_of_rows nest_rows_unsustained) = VLists [] [3] [0] /\
+  Sem.valid_b (code_sem_n nest_fb) nest_rows_unsustained = false.
+Proof. vm_compute. repeat split. Qed.
